@@ -770,6 +770,7 @@ func (b *skBuilder) after(s Src, depth int, inFunc bool) []*skNode {
 
 type c06Plan struct {
 	lead  int // blank / comment lines before the first statement of the file
+	tty   int // which standard streams look like terminals
 	chain []string
 	fault skFault
 	decoy bool
@@ -928,6 +929,7 @@ func c06Case(plan c06Plan, s Src, depth int, tag string) *Case {
 		{Role: "fault", Cfg: scriptCfg(text, stdin)},
 		{Role: "twin", Cfg: scriptCfg(twinText, stdin)},
 	}
+	cs.Runs[0].Cfg.TTY, cs.Runs[1].Cfg.TTY = plan.tty, plan.tty
 	cs.ExpectStdout = ptrS(want)
 	cs.ExpectErrLine = fl
 	cs.StripTokens = strip
@@ -967,6 +969,9 @@ func c06Systematic(tier string) []*Case {
 				}
 				if len(out)%7 == 3 {
 					plan.lead = 1 + len(out)%4
+				}
+				if len(out)%5 == 2 {
+					plan.tty = []int{7, 4, 6}[len(out)%3]
 				}
 				out = append(out, c06Case(plan, zeroSrc{}, 0, "table:ctx"))
 			}
@@ -1083,6 +1088,7 @@ func c06Random(s Src, tier string) *Case {
 	if Chance(s, "lead", 1, 4) {
 		plan.lead = s.Int("nlead", 1, 5)
 	}
+	plan.tty = drawTTY(s)
 	return c06Case(plan, s, 2, "rnd")
 }
 
